@@ -860,6 +860,16 @@ func (lb *LoadBalancer) proxyRequest(backend *Backend, w http.ResponseWriter, r 
 		headerBefore:   w.Header().Clone(),
 	}
 
+	// An exchange can also fail on the client's side of the proxy: the request body cannot be
+	// read to its end (malformed chunk, upload over a size limit, connection reset) or the
+	// response cannot be written (broken pipe, a plugin that cuts the response off). The
+	// reverse proxy ends such an exchange with a 502 or aborts it, like a failure of the
+	// backend; note where it came from, for the passive health check
+	r = r.WithContext(context.WithValue(r.Context(), clientSideFailureKey{}, &rw.clientSideFailure))
+	if r.Body != nil && r.Body != http.NoBody {
+		r.Body = &clientRequestBody{ReadCloser: r.Body, failed: &rw.clientSideFailure}
+	}
+
 	// Release the connection and record the outcome on every way out, including the
 	// panic (http.ErrAbortHandler) the reverse proxy raises when the response body
 	// cannot be copied to the end
@@ -924,6 +934,11 @@ func (lb *LoadBalancer) handlePassiveHealthCheck(backend *Backend, statusCode in
 	// the backend and must not bring a healthy backend closer to ejection
 	if errors.Is(r.Context().Err(), context.Canceled) {
 		logger.Debug().Str("backend", backend.Name).Int("status", statusCode).Msg("client went away, not counted against the backend")
+		return
+	}
+	// So does an exchange that failed on the client's side (see proxyRequest)
+	if failed, ok := r.Context().Value(clientSideFailureKey{}).(*int32); ok && atomic.LoadInt32(failed) != 0 {
+		logger.Debug().Str("backend", backend.Name).Int("status", statusCode).Msg("failed on the client's side, not counted against the backend")
 		return
 	}
 	// A request that was in flight when its backend was removed ends after the removal: what
@@ -1000,6 +1015,35 @@ type responseWriter struct {
 	// IDs, headers set by plugins)
 	headerBefore http.Header
 	sawInterim   bool
+	// clientSideFailure is set (atomically: the request body is read by the transport's
+	// goroutine) when the exchange failed on the client's side of the proxy
+	clientSideFailure int32
+}
+
+// clientSideFailureKey is the context key under which proxyRequest publishes the flag
+type clientSideFailureKey struct{}
+
+// clientRequestBody notes when the client's request body cannot be read to its end
+type clientRequestBody struct {
+	io.ReadCloser
+	failed *int32
+}
+
+func (b *clientRequestBody) Read(p []byte) (int, error) {
+	n, err := b.ReadCloser.Read(p)
+	if err != nil && err != io.EOF {
+		atomic.StoreInt32(b.failed, 1)
+	}
+	return n, err
+}
+
+// Write notes when the response cannot be handed on towards the client
+func (rw *responseWriter) Write(p []byte) (int, error) {
+	n, err := rw.ResponseWriter.Write(p)
+	if err != nil {
+		atomic.StoreInt32(&rw.clientSideFailure, 1)
+	}
+	return n, err
 }
 
 // WriteHeader captures the status code
